@@ -826,7 +826,25 @@ def trim_by(s, pred, do_l, do_r):
         # if every byte is stripped, end = 0 <= start: result empty
     ln = ite_bv(bv_ult(start, end, LW), bv_sub(end, start, LW), 0, LW)
     start2 = ite_bv(bv_ult(start, end, LW), start, 0, LW)
+    K = FORK_SMALL[0]
+    if K and not (isinstance(start2, int) and isinstance(ln, int)):
+        # opt-in (ex.fork_read_until): when only a few (start, length) pairs are possible, fork on them so that the successors
+        # work with concrete offsets
+        (ls, hs), (ll, hl) = bounds(start2), bounds(ln)
+        if hs - ls <= K and hl - ll <= K:
+            alts = []
+            for a in range(ls, hs + 1):
+                for b in range(ll, hl + 1):
+                    cnd = b_and(bv_eq(start2, a, LW), bv_eq(ln, b, LW))
+                    cnd = simp_bool(cnd) if not isinstance(cnd, bool) else cnd
+                    if cnd is False: continue
+                    alts.append((cnd, s.substr(a, b)))
+            if len(alts) == 1: return alts[0][1]
+            return Fork(alts)
     return s.substr(start2, ln)
+
+
+FORK_SMALL = [0]      # set by m_trim / m_trim_matches from ex.fork_read_until for the duration of the call
 
 
 @model(r'^core::str::<impl str>::trim$', r'^core::str::<impl str>::trim_start$', r'^core::str::<impl str>::trim_end$')
@@ -840,7 +858,9 @@ def m_trim(ex, st, c):
         if do_l: r = r.lstrip(ws)
         if do_r: r = r.rstrip(ws)
         return SymStr.const(r)
-    return trim_by(s, is_ws, do_l, do_r)
+    FORK_SMALL[0] = getattr(ex, 'fork_read_until', 0)
+    try: return trim_by(s, is_ws, do_l, do_r)
+    finally: FORK_SMALL[0] = 0
 
 
 def byte_pattern(ex, st, v):
@@ -1582,19 +1602,40 @@ def m_skip_collect(ex, st, c):
     return r
 
 
+def _char_domain(x):
+    """admissible values of a char term that is the zero-extension of a registered input byte, else None"""
+    try:
+        if isinstance(x, int): return None
+        if x.decl().kind() == z3.Z3_OP_ZERO_EXT: x = x.arg(0)
+        return byte_domain(x)
+    except Exception:
+        return None
+
+
+def _fold_class(res, v, py_pred):
+    """decide a character-class test outright when the byte's input alphabet settles it"""
+    if isinstance(res, bool): return res
+    d = _char_domain(v.v)
+    if d:
+        vals = [bool(py_pred(x)) for x in d]
+        if all(vals): return True
+        if not any(vals): return False
+    return res
+
+
 @model(r'^char::methods::<impl char>::is_whitespace$', r'^char::methods::is_whitespace$')
 def m_is_whitespace(ex, st, c):
     v = D(ex, st, c.args[0])
     if v.conc: return chr(v.v).isspace() if v.v >= 0x80 else v.v in (9, 10, 11, 12, 13, 32)
     b = z3.Extract(7, 0, v.v)
-    return b_and(z3.ULT(v.v, 0x80), is_ws(b))   # non-ASCII whitespace (U+0085, U+00A0, ...) is outside the domain
+    return _fold_class(b_and(z3.ULT(v.v, 0x80), is_ws(b)), v, lambda x: x in (9, 10, 11, 12, 13, 32))   # non-ASCII whitespace (U+0085, U+00A0, ...) is outside the domain
 
 
 @model(r'^char::methods::<impl char>::is_numeric$', r'^char::methods::is_numeric$', r'^char::methods::<impl char>::is_ascii_digit$')
 def m_is_numeric(ex, st, c):
     v = D(ex, st, c.args[0])
     if v.conc: return chr(v.v).isnumeric() if v.v >= 0x80 else 48 <= v.v <= 57
-    return z3.And(z3.UGE(v.v, 48), z3.ULE(v.v, 57))
+    return _fold_class(z3.And(z3.UGE(v.v, 48), z3.ULE(v.v, 57)), v, lambda x: 48 <= x <= 57)
 
 
 @model(r'^char::methods::<impl char>::is_ascii_control$', r'^char::methods::is_ascii_control$', r'^char::methods::<impl char>::is_control$', r'^char::methods::is_control$')
@@ -1604,7 +1645,7 @@ def m_is_control(ex, st, c):
     if v.conc: return v.v < 32 or v.v == 127 or (uni and 0x80 <= v.v <= 0x9f)
     r = z3.Or(z3.ULT(v.v, 32), v.v == 127)
     if uni: r = z3.Or(r, z3.And(z3.UGE(v.v, 0x80), z3.ULE(v.v, 0x9f)))
-    return r
+    return _fold_class(r, v, lambda x: x < 32 or x == 127 or (uni and 0x80 <= x <= 0x9f))
 
 
 @model(r'^char::methods::<impl char>::is_alphanumeric$', r'^char::methods::<impl char>::is_ascii_alphanumeric$')
@@ -1612,7 +1653,7 @@ def m_is_alnum(ex, st, c):
     v = D(ex, st, c.args[0])
     if v.conc: return chr(v.v).isalnum()
     x = v.v
-    return z3.Or(z3.And(z3.UGE(x, 48), z3.ULE(x, 57)), z3.And(z3.UGE(x, 65), z3.ULE(x, 90)), z3.And(z3.UGE(x, 97), z3.ULE(x, 122)))
+    return _fold_class(z3.Or(z3.And(z3.UGE(x, 48), z3.ULE(x, 57)), z3.And(z3.UGE(x, 65), z3.ULE(x, 90)), z3.And(z3.UGE(x, 97), z3.ULE(x, 122))), v, lambda y: 48 <= y <= 57 or 65 <= y <= 90 or 97 <= y <= 122)
 
 
 # ------------------------------------------------------------------ iterators over concrete-length sequences
